@@ -47,6 +47,7 @@ def dispatch (op : String) (j : Json) : Except String Json :=
   | "ctl.tree" => C06.tree j
   | "c06.depth" => C06.depth j
   | "c06.farcall" => C06.farcall j
+  | "c06.leaf" => C06.leaf j
   | _ => .error s!"unknown op {op}"
 
 def handleLine (line : String) : String :=
